@@ -7,6 +7,8 @@ source semantics says "evaluate child X now", the next entry of the leaf's ghost
 child returned and the havoc it caused are taken from that entry.  Events the source semantics prescribes (output
 bytes, flags, sleeps) must likewise be the next trace entries, with provably equal payloads.  Branches of the source
 semantics are decided under the leaf's path condition; when the path condition does not decide one, the leaf is split.
+
+Values are machine words as integers in [0, M) (contracts/isa.py); bool = 0/1, byte = 0..255.
 """
 from __future__ import annotations
 import dataclasses as dc
@@ -35,7 +37,7 @@ class Undecided(Exception):
 # outcomes of the reference semantics
 @dc.dataclass
 class Out:
-    kind: str            # 'normal' | 'fault' | 'defeat' | 'return' | 'break' | 'continue' | 'child-abnormal'
+    kind: str            # 'normal' | 'fault' | 'defeat' | 'return' | 'break' | 'continue' | 'child-abnormal' | 'ub'
     value: object = None
     what: object = None  # fault kind / abnormal kind
 
@@ -43,6 +45,16 @@ class Out:
 class Abrupt(Exception):
     def __init__(self, out):
         self.out = out
+
+
+@dc.dataclass
+class ArrayVal:
+    """an array reference value: where it lives and how long it is"""
+    el_type: object
+    section: str         # 'state' | 'const'
+    origin: object       # address term
+    length: object       # word term
+    writable: bool = True
 
 
 class SpecRun:
@@ -56,12 +68,17 @@ class SpecRun:
         self.mem = lemma.entry.mem          # spec memory: entry memory + the stores the source semantics prescribes
         self.entry = lemma.entry
         self.unchecked = lemma.unchecked
-        self.ub = False                      # undefined behaviour reached (unchecked build past a fault)
-        self.notes = []
+        self.stores = []                     # stores the source semantics prescribed so far: (addr, nbytes, value)
+        self.newvars = {}                    # variables declared by the construct under test: name -> value
+        self.M = lemma.M
+        self.W = lemma.w
 
     # ---- solver helpers -----------------------------------------------------------------------------------------
+    def pre(self):
+        return self.ctx.all_pre() + self.cond
+
     def implied(self, c):
-        o = smt.prove(self.ctx.all_pre() + self.cond, c)
+        o = smt.prove(self.pre(), c)
         if o.verdict == smt.UNKNOWN:
             raise Undecided(o.reason)
         return o.verdict == smt.PROVED
@@ -74,8 +91,15 @@ class SpecRun:
         if self.implied(z3.Not(c)): return False
         raise Split(c)
 
+    def require(self, f, what):
+        o = smt.prove(self.pre(), f)
+        if o.verdict == smt.UNKNOWN:
+            raise Undecided(o.reason)
+        if o.verdict == smt.CEX:
+            raise Mismatch(what, model=o.model)
+
     def require_eq(self, a, b, what):
-        o = smt.prove(self.ctx.all_pre() + self.cond, a == b)
+        o = smt.prove(self.pre(), a == b)
         if o.verdict == smt.UNKNOWN:
             raise Undecided(o.reason)
         if o.verdict == smt.CEX:
@@ -105,40 +129,59 @@ class SpecRun:
             raise Mismatch(f'source semantics evaluates {node!r} here, emitted code did {got!r} (order of evaluation)')
         ev = e[2]
         # the child reads the observable memory: it must be what the source semantics says it is at this point
-        self.sync(ev.pre, ev.info.stack, f'at invocation of {node!r}')
+        self.sync(ev.pre, f'at invocation of {node!r}')
         self.mem = ev.havoc(self.mem)
         if ev.abnormal is not None:
             raise Abrupt(Out('child-abnormal', what=ev.abnormal))
         return ev.value
 
-    def sync(self, code_state, stack, where):
-        """observable memory of the emitted code == memory of the source semantics (everything except the scratch area
-        between the top of the array stack and the lemma's entry frame)"""
-        c = self.ctx
-        a = z3.BitVec('a!sync', c.BITS)
-        lo = code_state.regs['ap']; hi = self.entry.regs['fp'] - self.L.entry_offset_bv
-        scratch = z3.And(z3.ULE(lo, a), z3.ULT(a, hi))
-        o = smt.prove(c.all_pre() + self.cond + [z3.Not(scratch)], z3.Select(code_state.mem, a) == z3.Select(self.mem, a))
-        if o.verdict == smt.UNKNOWN:
-            raise Undecided(o.reason)
-        if o.verdict == smt.CEX:
-            raise Mismatch(f'observable memory differs from the source semantics {where}', model=o.model)
+    def sync(self, code_state, where):
+        """observable memory of the emitted code == memory of the source semantics, by store accounting: every store
+        the emitted code executed so far either lies in the scratch area (between the current top of the array stack
+        and the lemma's entry frame: temporaries, pushed values) or is, in order, a store the source semantics
+        prescribes (same address, same width, same value); and every prescribed store has been executed."""
+        lo = code_state.regs['ap']; hi = self.entry.regs['fp'] - self.L.entry_offset
+        pre = self.pre()
+        spec = list(self.stores)
+        k = 0
+        for (a, n, v, text) in code_state.stores:
+            scratch = z3.And(lo <= a, a + n <= hi)
+            o = smt.prove(pre, scratch)
+            if o.verdict == smt.UNKNOWN:
+                raise Undecided(o.reason)
+            if o.verdict == smt.PROVED:
+                continue
+            if k < len(spec) and spec[k][1] == n:
+                sa, sn, sv = spec[k]
+                m = 1 << (8 * n)
+                o2 = smt.prove(pre, z3.And(a == sa, v % m == sv % m))
+                if o2.verdict == smt.UNKNOWN:
+                    raise Undecided(o2.reason)
+                if o2.verdict == smt.PROVED:
+                    k += 1; continue
+                raise Mismatch(f'store `{text}` {where}: neither a scratch store nor the store the source semantics prescribes here '
+                               f'(address or value differs)', model=o2.model)
+            raise Mismatch(f'store `{text}` {where}: the emitted code writes outside its scratch area where the source semantics '
+                           f'prescribes no store', model=o.model)
+        if k != len(spec):
+            raise Mismatch(f'{where}: the source semantics has stored {len(spec)} value(s) by now, the emitted code {k}')
 
     def store(self, addr, n, v):
-        c = self.ctx
+        self.stores.append((addr, n, v))
         for i in range(n):
-            self.mem = z3.Store(self.mem, addr + c.bv(i), z3.Extract(8 * i + 7, 8 * i, v))
+            self.mem = z3.Store(self.mem, addr + i, (v / (1 << (8 * i))) % 256)
 
     def load(self, mem, addr, n):
-        c = self.ctx
-        bs = [z3.Select(mem, addr + c.bv(i)) for i in range(n)]
-        v = z3.Concat(*reversed(bs)) if n > 1 else bs[0]
-        return z3.ZeroExt(c.BITS - 8 * n, v) if n < c.W else v
+        v = None
+        for i in range(n):
+            b = z3.Select(mem, addr + i)
+            self.ctx.facts += [b >= 0, b <= 255]
+            v = b if v is None else v + (1 << (8 * i)) * b
+        return v
 
     def fault(self, kind):
         if self.unchecked:
             # C15: the unchecked build is specified on fault-free runs only
-            self.ub = True
             raise Abrupt(Out('ub', what=kind))
         self.event('flag', kind)
         self.event('flag', 'error')
@@ -146,61 +189,60 @@ class SpecRun:
 
     # ---- expressions ------------------------------------------------------------------------------------------------
     def arith(self, op, a, b):
-        c = self.ctx
-        if op in ('div', 'mod', 'mul') and op not in c.interpret and not (z3.is_bv_value(a) or z3.is_bv_value(b)) or \
-                (op in ('div', 'mod') and op not in c.interpret):
-            return isa.uf(op, c.BITS)(a, b)
-        return isa.ARITH[op](a, b)
+        return isa.arith(op, a, b, self.W, self.ctx.interpret)
+
+    def truth(self, v):
+        return v != 0
+
+    def b2w(self, c):
+        return z3.If(c, z3.IntVal(1), z3.IntVal(0))
 
     def eval(self, e):
-        c = self.ctx; bv = c.bv
         from .vcg import AExpr
+        M = self.M
         if isinstance(e, AExpr):
             return self.child(e)
         if isinstance(e, ast.IntValue):            # includes ByteValue
             return self.L.const_value(e.data)
         if isinstance(e, ast.BoolValue):
-            return bv(1 if e.data else 0)
+            return z3.IntVal(1 if e.data else 0)
         if isinstance(e, ast.StringValue):
             return self.L.string_value(e.data)
         if isinstance(e, (ast.BoolToByte, ast.ByteToInt)):
             return self.eval(e.expr)
         if isinstance(e, ast.IntToByte):
-            return self.eval(e.expr) & bv(0xFF)
+            return self.eval(e.expr) % 256
         if isinstance(e, ast.IntToBool):
-            v = self.eval(e.expr)
-            return z3.If(v != bv(0), bv(1), bv(0))
+            return self.b2w(self.eval(e.expr) != 0)
         if isinstance(e, ast.BinaryArithmeticOp):
             l = self.eval(e.left); r = self.eval(e.right)
             op = {ast.Add: 'add', ast.Sub: 'sub', ast.Mul: 'mul', ast.Div: 'div', ast.Mod: 'mod'}[type(e)]
             if op in ('div', 'mod'):
-                if self.decide(r == bv(0)):
+                if self.decide(r == 0):
                     self.fault('division_by_zero')
             return self.arith(op, l, r)
         if isinstance(e, ast.Pos):
             return self.eval(e.arg)
         if isinstance(e, ast.Neg):
-            return -self.eval(e.arg)
+            return (-self.eval(e.arg)) % M
         if isinstance(e, ast.Not):
-            v = self.eval(e.arg)
-            return z3.If(v != bv(0), bv(0), bv(1))
+            return self.b2w(self.eval(e.arg) == 0)
         if isinstance(e, ast.And):
             l = self.eval(e.left)
-            if not self.decide(l != bv(0)):
-                return bv(0)
-            r = self.eval(e.right)
-            return z3.If(r != bv(0), bv(1), bv(0))
+            if not self.decide(l != 0):
+                return z3.IntVal(0)
+            return self.b2w(self.eval(e.right) != 0)
         if isinstance(e, ast.Or):
             l = self.eval(e.left)
-            if self.decide(l != bv(0)):
-                return bv(1)
-            r = self.eval(e.right)
-            return z3.If(r != bv(0), bv(1), bv(0))
+            if self.decide(l != 0):
+                return z3.IntVal(1)
+            return self.b2w(self.eval(e.right) != 0)
         if isinstance(e, (ast.CompareOp, ast.EqualityOp)):
-            l = self.eval(e.left); r = self.eval(e.right)
-            rel = {ast.Eq: lambda a, b: a == b, ast.Ne: lambda a, b: a != b, ast.Lt: lambda a, b: a < b,
-                   ast.Le: lambda a, b: a <= b, ast.Gt: lambda a, b: a > b, ast.Ge: lambda a, b: a >= b}[type(e)]
-            return z3.If(rel(l, r), bv(1), bv(0))       # signed comparison
+            l = isa.sx(self.eval(e.left), M); r = isa.sx(self.eval(e.right), M)      # signed comparison
+            rel = {ast.Eq: l == r, ast.Ne: l != r, ast.Lt: l < r, ast.Le: l <= r, ast.Gt: l > r, ast.Ge: l >= r}[type(e)]
+            return self.b2w(rel)
         if isinstance(e, ast.VariableLookup):
+            if e.var.name in self.newvars:
+                return self.newvars[e.var.name]
             return self.L.read_var(self, e.var)
         raise NotImplementedError(f'spec: expression {type(e).__name__}')
